@@ -40,6 +40,7 @@ func (tst *tsTable) flusherLoop(flushCh chan *flusherIntroduction, mergeCh chan 
 		case e := <-flusherWatcher:
 			flusherWatchers.Add(e)
 		case <-epochWatcher.Watch():
+			verifFlusherGate(tst)
 			if func() bool {
 				tst.incTotalFlushLoopStarted(1)
 				start := time.Now()
